@@ -182,14 +182,18 @@ func (t *ArrayType) Default() px.Type {
 func (t *ArrayType) IsAssignable(o px.Type, g px.Guard) bool {
 	switch o := o.(type) {
 	case *ArrayType:
-		return t.size.IsAssignable(o.size, g) && GuardedIsAssignable(t.typ, o.typ, g)
+		// the element type of a type that only has the empty array as instance does not matter
+		return t.size.IsAssignable(o.size, g) && (o.size.max == 0 || GuardedIsAssignable(t.typ, o.typ, g))
 	case *TupleType:
 		if !t.size.IsAssignable(o.givenOrActualSize, g) {
 			return false
 		}
+		if o.givenOrActualSize.max == 0 {
+			return true
+		}
 		if len(o.types) == 0 {
 			// a tuple without types accepts elements of any type
-			return o.givenOrActualSize.max == 0 || GuardedIsAssignable(t.typ, anyTypeDefault, g)
+			return GuardedIsAssignable(t.typ, anyTypeDefault, g)
 		}
 		return allAssignableTo(o.types, t.typ, g)
 	default:
